@@ -499,12 +499,16 @@ class TextMatcher:
         )
 
     def match(self, prop: Union[vText, vCategory, str]):
+        # RFC 4791, section 9.7.5: text-match is a substring match
         if isinstance(prop, vText):
-            matches = self.collation(self.text, str(prop), "equals")
+            matches = self.collation(str(prop), self.text, "contains")
         elif isinstance(prop, str):
             matches = self.collation(self.text, prop, "equals")
         elif isinstance(prop, vCategory):
-            matches = any([self.match(cat) for cat in prop.cats])
+            # Categories are compared as a whole, each on its own
+            matches = any(
+                self.collation(self.text, str(cat), "equals") for cat in prop.cats
+            )
         else:
             logging.warning(
                 "potentially unsupported value in text match search: " + repr(prop)
